@@ -44,7 +44,7 @@ def native(run, cases):
 
 def check(run):
     pending = []
-    for rep in run.verify_many([(T.Transform(), {}), (T.Transform(include_states=True), {}), (T.Score(), {}), (T.Mahalanobis(), {})]):
+    for rep in run.verify_many([(T.Transform(), {}), (T.Transform(include_states=True), {}), (T.Score(), {}), (T.Score(explain=False), {}), (T.Mahalanobis(), {})]):
         for ob, model, definitive in driver.refuted(run, rep):
             pending.append((rep, ob, model, definitive))
     need = run.tier == "thorough" or pending or run.undecided or any(r.status != "ok" for r in run.reports)
